@@ -160,6 +160,21 @@ def gen_stale(rng):
     return {"kind": "stale", "nodes": ids, "ops": ops, "keys_of": {1: [10], 2: [], 3: []}}
 
 
+def gen_last_client_lost(rng, n_nodes=3):
+    """a node's LAST gRPC client goes away while another node misses both the RemoveClientId message and
+    the remove batch: the next anti-entropy message lists no client at all and must still clear it"""
+    ids = list(range(1, n_nodes + 1))
+    a = rng.choice(ids)
+    b = rng.choice([i for i in ids if i != a])
+    key = 10 * a
+    ops = [["reg", a, [a, 1], key, rng.randrange(1, 50)], ["flush", a]] + deliver_rounds(ids, 2)
+    if rng.random() < 0.5:
+        ops += [["reg", a, [a, 1], key + 1, rng.randrange(1, 50)], ["flush", a]] + deliver_rounds(ids, 2)
+    ops += [["disc", a, [a, 1]], ["flush", a]] + [["drop", a, b]] * 6
+    ops += quiesce(ids) + [["dump"]]
+    return {"kind": "converge", "nodes": ids, "ops": ops, "keys_of": {a: [key, key + 1]}}
+
+
 # ---------------------------------------------------------------- canonical forms
 def c_inst_model(i):
     return {"v": i["si_val"], "from": i["si_from"], "client": list(i["si_client"])}
@@ -301,6 +316,8 @@ def run(chk, replay=None):
         if isinstance(rp, dict) and isinstance(rp.get("case"), dict) and "ops" in rp["case"]:
             cases.append(rp["case"])
     cases.append(gen_stale(rng))
+    for _ in range(4 * scale):
+        cases.append(gen_last_client_lost(rng, rng.choice([2, 3, 3, 4])))
     for _ in range(40 * scale):
         cases.append(gen_random(rng, rng.choice([2, 3, 3, 4]), rng.choice([20, 40, 60])))
     for _ in range(30 * scale):
